@@ -98,8 +98,17 @@ class LeastSquaresScipyStrategy(HoloPyObject):
 
     def minimize(self, parameters, residuals_function):
         initial_parameter_guess = [par.scale(par.guess) for par in parameters]
+        optimizer_kwargs = dict(self._optimizer_kwargs)
+        lower = [par.scale(getattr(par, 'lower_bound', -np.inf))
+                 for par in parameters]
+        upper = [par.scale(getattr(par, 'upper_bound', np.inf))
+                 for par in parameters]
+        if np.any(np.isfinite(lower + upper)):
+            # keep the minimizer inside the priors' supports (outside, the
+            # prior term of the residuals is infinite); 'lm' cannot do that
+            optimizer_kwargs.update(method='trf', bounds=(lower, upper))
         fitresult = least_squares(residuals_function, initial_parameter_guess,
-                                  **self._optimizer_kwargs)
+                                  **optimizer_kwargs)
         result_pars = self.unscale_pars_from_minimizer(parameters, fitresult.x)
         return result_pars, fitresult
 
